@@ -101,7 +101,11 @@ func Assert(c bool, label string) {
 func Cover(label string) { Covered[label] = true }
 
 // Note records a debugging note for the path.
-func Note(args ...any) {}
+func Note(args ...any) {
+	if os.Getenv("VERIF_NOTES") != "" {
+		fmt.Println(append([]any{"NOTE:"}, args...)...)
+	}
+}
 
 // Assumption records a standing assumption of the harness in the evidence.
 func Assumption(text string) {}
@@ -203,3 +207,35 @@ func Bzip2(p string) {
 		panic("vf: bzip2 " + p + ": " + err.Error())
 	}
 }
+
+// SelectString returns menu[idx]; under the executor idx may be symbolic and
+// the result is a table over the same selector (no fork).
+func SelectString(idx int, menu []string) string { return menu[idx] }
+
+// SelectInt returns menu[idx] (see SelectString).
+func SelectInt(idx int, menu []int) int { return menu[idx] }
+
+// SelectBool returns menu[idx] (see SelectString).
+func SelectBool(idx int, menu []bool) bool { return menu[idx] }
+
+// LookupString returns the index of s in menu or -1 (leaf-wise, no fork).
+func LookupString(menu []string, s string) int {
+	for i, m := range menu {
+		if m == s {
+			return i
+		}
+	}
+	return -1
+}
+
+// TermInt / TermBool hand a symbolic value to the solver as a term so that
+// further If-then-else / And / Or combinations stay linear in size.
+func TermInt(x int) int    { return x }
+func TermBool(b bool) bool { return b }
+
+// Not is boolean negation without a branch.
+func Not(a bool) bool { return !a }
+
+// EqInt / EqString compare without a branch.
+func EqInt(a, b int) bool       { return a == b }
+func EqString(a, b string) bool { return a == b }
